@@ -657,6 +657,8 @@ def run(c):
         if grav == "jacobi":
             sim.integrator = "whfast"
         try:
+            if grav in ("tree", "jacobi"):   # reb_calculate_acceleration_var exits ("not yet implemented") for every routine but BASIC / COMPENSATED
+                raise RuntimeError("unsupported")
             var1 = sim.add_variation()
             var2 = sim.add_variation(order=2, first_order=var1) if case % 3 == 0 else None
             if case % 5 == 0 and na < n:
@@ -673,7 +675,7 @@ def run(c):
             if var2 is not None:
                 dim("variational: 2nd order present")
         except Exception as ex:
-            if "tree" not in grav:
+            if grav not in ("tree", "jacobi"):
                 viol.append(("dim:variational:crash:" + grav, "force evaluation with variational particles raised %r" % (ex,), dict(cfg=cfg, xs=xs, gravity=grav)))
 
         # ---- (5) additional_forces callback: update_acceleration = gravity + what the callback adds
@@ -734,9 +736,8 @@ def run(c):
                 dim("histories: force after a particle was removed")
 
         # ---- (7) system far from the origin (centre of mass away): translation invariance of the force
-        sim = mk_plain(cfg, [[p[0] + 1e3 * cfg["scale"], p[1] - 3e2 * cfg["scale"], p[2]] for p in xs], grav, vs,
-                       None if grav != "tree" else None)
         if grav != "tree":
+            sim = mk_plain(cfg, [[p[0] + 1e3 * cfg["scale"], p[1] - 3e2 * cfg["scale"], p[2]] for p in xs], grav, vs, None)
             if grav == "jacobi":
                 sim.integrator = "whfast"
             calc(sim)
